@@ -402,7 +402,9 @@ class ScopeGen(ScopeFn):
     @NodeRef.wrap
     def assign(self, node):
         self.access(node)
-        if node.name not in self.defined:
+        if node.name not in self.defined and node.name not in self.iterators:
+            # An iteration variable stays local even when the body
+            # assigns to it again.
             self.assignments.append(node)
         return node.node
 
